@@ -6,7 +6,7 @@ Grammar accepted (anything else raises CExprError):
     names      identifiers; `a->b` and `a.b` are read as one name "a_b" (struct member access)
     casts      ( [unsigned|signed] {PY_LONG_LONG | long long | long | int} )  expr
     unary      - ~ !(rejected)
-    binary     << >> + - & | < > <= >= == != && ||   with C precedence, left associative
+    binary     << >> + - * & | < > <= >= == != && ||   with C precedence, left associative
     parentheses
 `long` is treated as `long long` (LP64; checked against gcc by the callers' platform probe).
 """
@@ -18,7 +18,7 @@ class CExprError(Exception):
 
 
 _TOK = re.compile(r"\s*(?:(0[xX][0-9a-fA-F]+|\d+)([uUlL]*)|([A-Za-z_]\w*(?:\s*(?:->|\.)\s*[A-Za-z_]\w*)*)|"
-                  r"(<<|>>|<=|>=|==|!=|&&|\|\||[-+~&|<>()]))")
+                  r"(<<|>>|<=|>=|==|!=|&&|\|\||[-+*~&|<>()]))")
 
 _TYPES = {
     ("PY_LONG_LONG",): "TLL", ("long", "long"): "TLL", ("long",): "TLL", ("int",): "TInt",
@@ -32,7 +32,7 @@ _TYPEWORDS = {"PY_LONG_LONG", "long", "int", "unsigned", "signed"}
 _BIN = [  # lowest precedence first
     {"||": "BLOr"}, {"&&": "BLAnd"}, {"|": "BOr"}, {"&": "BAnd"}, {"==": "BEq", "!=": "BNe"},
     {"<": "BLt", ">": "BGt", "<=": "BLe", ">=": "BGe"}, {"<<": "BShl", ">>": "BShr"},
-    {"+": "BAdd", "-": "BSub"},
+    {"+": "BAdd", "-": "BSub"}, {"*": "BMul"},
 ]
 
 
